@@ -195,4 +195,20 @@ theorem unpackMsg_wf' {b : Bytes} {m : Msg} (h : unpackMsg b = .ok m) : msgWF m 
       first | omega | exact decide_eq_true (by omega)
   next => simp at h
 
-end MosVerif.Wire
+/-- the header of an accepted message is `header.header()` of the first four octets -/
+theorem unpackMsg_hdr_inv {b : Bytes} {m : Msg} (h : unpackMsg b = .ok m) :
+    ∃ i0 i1 b0 b1 rest, b = i0 :: i1 :: b0 :: b1 :: rest ∧ m.hdr = headerOfBits (be16 i0 i1) (be16 b0 b1) := by
+  unfold unpackMsg at h
+  obtain ⟨hdr, hs, h⟩ := Res.bind_eq_ok h
+  rw [sliceFrom_ok (Nat.zero_le _), List.drop_zero] at hs
+  simp only [Res.ok.injEq] at hs
+  subst hs
+  split at h
+  next i0 i1 b0 b1 q0 q1 a0 a1 n0 n1 x0 x1 tail heq =>
+    obtain ⟨⟨qs, o1⟩, h1, h⟩ := Res.bind_eq_ok h
+    obtain ⟨⟨an, o2⟩, h2, h⟩ := Res.bind_eq_ok h
+    obtain ⟨⟨ns, o3⟩, h3, h⟩ := Res.bind_eq_ok h
+    obtain ⟨⟨ar, o4⟩, h4, h⟩ := Res.bind_eq_ok h
+    simp only [Res.ok.injEq] at h
+    exact ⟨i0, i1, b0, b1, _, (by first | rfl | exact heq), by rw [← h]⟩
+  next => simp at h
